@@ -153,7 +153,10 @@ def bounded_sweep(contract, rid, quick=300, thorough=5000, cfg="-"):
             out = json.loads(lines[-1])
         except Exception:
             raise RuntimeError("bounded sweep failed: " + (p.stdout + p.stderr)[-800:])
-        return {"function": contract.name, "bound": f"{out['cases']} generated inputs (corpus of adversarial names + seeded random)",
+        bound = f"{out['cases']} generated inputs (corpus of adversarial cases + seeded random)"
+        if out.get("calls"):
+            bound = f"{out['calls']} calls of extension entry points (argument grid, sanitizer build)"
+        return {"function": contract.name, "bound": bound,
                 "cases": out["cases"], "evaluations": out["evaluations"], "samples": out["samples"],
                 "failures": out["failures"]}
     return run
